@@ -98,7 +98,8 @@ def run_scenario(res: Result, seed: int) -> None:
             for i in range(n_reg):
                 s = R.gen_service(rng, type_=T1, min_ttl=10)
                 s.name = "own%d.%s" % (i, T1)
-                s.server = "h-own%d.local." % i
+                # services may share a host name and still advertise different address sets (IPv4-only next to dual-stack)
+                s.server = "h-own%d.local." % (i if rng.random() < 0.6 else 0)
                 svcs.append(s)
                 t = await zc.async_register_service(R.make_info(s), cooperating_responders=True)
                 await t
@@ -228,6 +229,10 @@ def withdrawn_monitor(res: Result, trace: List[Dict[str, Any]], C0: float, C: fl
     first_pos: Dict[str, float] = {}
     last_pos: Dict[str, float] = {}
     byes_after: Dict[str, int] = {}
+    # every other record of the host's services (SRV, TXT, address, NSEC): whatever was multicast with a positive TTL must have
+    # been followed by a TTL-0 copy before close returned (all services are withdrawn by close, so shared host names are too)
+    rec_last_pos: Dict[Tuple, float] = {}
+    rec_byes: Dict[Tuple, int] = {}
     for e in trace:
         if e["host"] != "H" or not e["mcast"]:
             continue
@@ -237,6 +242,12 @@ def withdrawn_monitor(res: Result, trace: List[Dict[str, Any]], C0: float, C: fl
         for r in m.answers + m.additionals:
             ident = R.ident_of_wire(r)
             if ident[0] != "PTR" or ident[1] != T1.lower():
+                if ident[0] in ("SRV", "TXT", "A", "AAAA", "NSEC"):
+                    if r.ttl > 0:
+                        rec_last_pos[ident] = e["t"]
+                        rec_byes[ident] = 0
+                    elif ident in rec_last_pos:
+                        rec_byes[ident] += 1
                 continue
             alias = ident[2][0]
             if r.ttl > 0:
@@ -251,6 +262,10 @@ def withdrawn_monitor(res: Result, trace: List[Dict[str, Any]], C0: float, C: fl
             viol("c17.withdrawn", "announced_not_withdrawn", "%s was last multicast with a positive TTL %.0f ms %s close was requested (first announced at %+.0f ms) "
                  "and no goodbye for it followed before async_close returned (+%.0f ms)" % (alias, abs(t - C0), "after" if t >= C0 else "before", first_pos[alias] - C0, C - C0),
                  mechanism=mech)
+    for ident, t in sorted(rec_last_pos.items(), key=lambda kv: repr(kv[0])):
+        if rec_byes[ident] == 0:
+            viol("c17.withdrawn", "record_not_withdrawn", "%r was last multicast with a positive TTL %.0f ms %s close was requested and no TTL-0 copy followed before "
+                 "async_close returned (+%.0f ms)" % (ident, abs(t - C0), "after" if t >= C0 else "before", C - C0), record_kind=ident[0])
 
 
 def analyse(res: Result, sim: simnet.Sim, desc: Dict[str, Any], out: Dict[str, Any], log: List[Tuple], viol) -> None:
